@@ -148,7 +148,7 @@ class CategoriesToIntegers(BaseEstimator, TransformerMixin):
                         lv.append("...")
                     raise ValueError(
                         "Unable to find category value %r type(v)=%r "
-                        "among\n%s" % (v, type(v), "\n".join(lv))
+                        "among\n%s" % (v, type(v), "\n".join(map(str, lv)))
                     )
                 return numpy.nan
 
@@ -186,7 +186,7 @@ class CategoriesToIntegers(BaseEstimator, TransformerMixin):
                                 lv.append("...")
                             raise ValueError(
                                 "Unable to find category value %r: %r "
-                                "type(v)=%r among\n%s" % (k, v, type(v), "\n".join(lv))
+                                "type(v)=%r among\n%s" % (k, v, type(v), "\n".join(map(str, lv)))
                             )
                         continue
                     else:
